@@ -24,6 +24,9 @@ FORMULAS = [
     (3, [[1, 2, 3], [-1], [-2]]),
     (2, [[1], [-1]]),                 # unsatisfiable
     (3, []),                          # only unused variables
+    (10, [[1, -10], [10, 2]]),        # two-digit variables: the answer mentions 10 / -10 (a literal ending in the digit 0)
+    (20, [[20, -10], [5, -20]]),
+    (11, [[-10, 11], [10, -11]]),
 ]
 
 
@@ -235,9 +238,11 @@ def _satisfies(clauses, model):
 def _bridge(fidx, solver, sameas_kind, installed_bit, verdict, bits, layout, comments, trailing_zero, fail_run, api, auto=None):
     """One call of the real bridge in a fake world; True iff the outcome is the documented one."""
     n, clauses = FORMULAS[fidx]
-    model = [bool(bits >> i & 1) for i in range(n)]
+    model = [bool(bits >> (i % 3) & 1) for i in range(n)]
     if verdict == 0 and not _satisfies(clauses, model):
         return True                      # a sound solver never emits a non-model: outside the contract
+    if verdict == 1 and n > 3:
+        return True                      # the larger formulas are satisfiable: UNSAT is not an answer a sound solver gives
     if verdict == 1 and n <= 3:
         # a sound solver says UNSAT only for unsatisfiable formulas
         for b in range(1 << n):
@@ -403,6 +408,33 @@ def h_e_parse_7(iface: int, verdict: int, bits: int, layout: int, comments: bool
                     pickb(comments), pickb(trailing_zero), False, pick(api, 0, 1))
 
 
+def h_e_parse_8(iface: int, verdict: int, bits: int, layout: int, comments: bool, trailing_zero: bool, api: int) -> bool:
+    """
+    pre: 0 <= iface <= 2 and 0 <= verdict <= 3 and 0 <= bits <= 7 and 0 <= layout <= 2 and 0 <= api <= 1
+    post: _
+    """
+    return untraced(_bridge, 8, IFACE[pick(iface, 0, 2)], 0, True, pick(verdict, 0, 3), pick(bits, 0, 7), pick(layout, 0, 2),
+                    pickb(comments), pickb(trailing_zero), False, pick(api, 0, 1))
+
+
+def h_e_parse_9(iface: int, verdict: int, bits: int, layout: int, comments: bool, trailing_zero: bool, api: int) -> bool:
+    """
+    pre: 0 <= iface <= 2 and 0 <= verdict <= 3 and 0 <= bits <= 7 and 0 <= layout <= 2 and 0 <= api <= 1
+    post: _
+    """
+    return untraced(_bridge, 9, IFACE[pick(iface, 0, 2)], 0, True, pick(verdict, 0, 3), pick(bits, 0, 7), pick(layout, 0, 2),
+                    pickb(comments), pickb(trailing_zero), False, pick(api, 0, 1))
+
+
+def h_e_parse_10(iface: int, verdict: int, bits: int, layout: int, comments: bool, trailing_zero: bool, api: int) -> bool:
+    """
+    pre: 0 <= iface <= 2 and 0 <= verdict <= 3 and 0 <= bits <= 7 and 0 <= layout <= 2 and 0 <= api <= 1
+    post: _
+    """
+    return untraced(_bridge, 10, IFACE[pick(iface, 0, 2)], 0, True, pick(verdict, 0, 3), pick(bits, 0, 7), pick(layout, 0, 2),
+                    pickb(comments), pickb(trailing_zero), False, pick(api, 0, 1))
+
+
 def _auto_set(first, more):
     if first >= 11:
         return 0
@@ -427,6 +459,16 @@ def h_e_auto(first: int, more: bool, sameas_kind: int, verdict: int, layout: int
 
 def _two_calls(s1, inst1, s2, inst2, auto1, auto2):
     """the set of installed solvers may change between two calls in one process: nothing is remembered"""
+    # a caller that asks for the table of supported solvers and edits the list it got does not change the table
+    listing = S.supported_satsolvers()
+    keep = list(listing)
+    if isinstance(listing, list):
+        listing.sort(reverse=True)
+        del listing[:4]
+        listing.append('mysolver')
+    if list(S.supported_satsolvers()) != keep:
+        return False
+
     def one(solver, installed, auto):
         if auto:
             return _bridge(3, 0, 0, True, 0, 1, 0, False, True, False, 0, (1 << solver) if installed else 0)
